@@ -242,6 +242,9 @@ def c16(ck, thorough):
     # the special-state id layout after shuffling and the remapper's chain resolution
     mc(ck, "ACShuffle", "c16_shuffle", {"MaxStates": 12 if thorough else 10},
        ["RemapCorrect", "Layout", "SwapsArePermutations"])
+    # the DFA with both start kinds: interleaved unanchored/anchored copies, remap tables, special ids
+    mc(ck, "ACDfaBoth", "c16_dfaboth", {"MaxStates": 6 if thorough else 5, "Classes": 1},
+       ["TargetsOK", "LayoutOK"])
     mc(ck, "ACSearch", "c16_search", search_consts(ALLK, [False], [False], [False], False),
        SEARCH_INV, ["PositionMonotone"])
     fams = ["f23", "ci", "shapes", "edge", "rand:%d:12:8" % (600 if thorough else 80)]
